@@ -8,8 +8,11 @@
 //! members *by construction* (indices >= n of the same injective key family)
 //! are counted; with p = 2^-b the count must satisfy
 //! |fp - N p| <= 6 sqrt(N p (1-p)) + 3 (for b > 16 only the upper side is
-//! judged). N = 10^6 for b <= 12 and b > 16, 4*10^6 for 13 <= b <= 16. Rates
-//! are judged only for n >= 1000 keys.
+//! judged). N = 10^6 for b <= 12 and b > 16, 4*10^6 for 13 <= b <= 16. A count
+//! outside the band is confirmed on a second, disjoint set of N probes and
+//! reported only if that one is outside the band on the same side too (a real
+//! defect fails both, a fluctuation fails both with probability < 10^-15).
+//! Rates are judged only for n >= 1000 keys.
 use dsi_progress_logger::no_logging;
 use rand::rngs::SmallRng;
 use rand::Rng;
